@@ -70,6 +70,7 @@ def _run_one(mu: Mut) -> dict:
         env["VERIF_EVIDENCE_DIR"] = str(tmp / "ev")
         env["PYTHONDONTWRITEBYTECODE"] = "1"
         env["VERIF_CACHE_DIR"] = str(tmp / "cache")
+        env.setdefault("VERIF_S2_TIMEOUT", "45")
         pr = subprocess.run([str(VERIF / "vcheck"), mu.pid, "--tier", "quick"], env=env, capture_output=True, text=True, timeout=600, cwd=str(VERIF))
         out = pr.stdout + pr.stderr
         findings = [l for l in out.splitlines() if l.strip().startswith("FINDING")]
